@@ -201,6 +201,31 @@ fn ilv_oracle() -> Oracle {
                 }
             }
         }
+        // an explicitly requested weight becomes the charged weight once acknowledged: when one thread is the
+        // only writer of key 1 and all its calls are acknowledged, the last explicitly requested weight is charged
+        {
+            let k: K = 1;
+            let writers: Vec<usize> = {
+                let mut w: Vec<usize> = run.calls.iter().filter(|c| c.thread < PHASE_INIT && c.op.key() == Some(k) && c.op.is_write()).map(|c| c.thread).collect();
+                w.sort();
+                w.dedup();
+                w
+            };
+            if writers.len() == 1 && !run.calls.iter().any(|c| c.thread < PHASE_INIT && c.op.key() == Some(k) && matches!(c.op, Op::Delete { .. })) {
+                let mut ws: Vec<&Call> = run.calls.iter().filter(|c| c.thread == writers[0] && c.op.key() == Some(k)).collect();
+                ws.sort_by_key(|c| c.idx);
+                let last_w = ws.iter().rev().find_map(|c| match &c.op {
+                    Op::Upsert { w: Some(w), .. } if run.status_of(c.thread, c.idx) == Some(CommandStatus::Accepted) => Some((*w, c.short())),
+                    _ => None,
+                });
+                let later_implicit = ws.iter().rev().take_while(|c| !matches!(&c.op, Op::Upsert { w: Some(_), .. })).any(|c| matches!(&c.op, Op::Upsert { .. }));
+                if let (Some((w, desc)), false, Some(e)) = (last_w, later_implicit, run.obs_end.entry(k)) {
+                    if run.obs_end.weight_of_id(e.2) != Some(w) {
+                        out.push(Finding::new("explicit-weight-not-charged", "upsert:explicit-weight-not-charged", format!("{} was acknowledged Accepted and is the last weight request for key {}, but {:?} is charged", desc, k, run.obs_end.weight_of_id(e.2))));
+                    }
+                }
+            }
+        }
         // an upsert acknowledged as accepted is not silently lost: with no later delete of the key by anybody,
         // the probe read after quiescence returns the latest accepted value
         for k in [1u64] {
@@ -245,6 +270,8 @@ fn ilv_programs() -> Vec<Program> {
     v.push(mk("upsert(v,ttl);get_ref  [worker stopped]", vec![put(1, 30)], vec![vec![ups(true, None, Some(5000), false), Op::Read { k: 1, variant: ReadVariant::GetRef }]], true));
     v.push(mk("delete;upsert(v);get  [worker stopped: soft-deleted state]", vec![put(1, 30)], vec![vec![del(1), ups(true, None, None, false), get(1)]], true));
     v.push(mk("delete;upsert(v,w,ttl)  [worker running]", vec![put(1, 30)], vec![vec![del(1), ups(true, Some(40), Some(5000), false)]], false));
+    v.push(mk("upsert(w=40);upsert(w=30 = the initial weight) unawaited", vec![put(1, 30)], vec![vec![ups(true, Some(40), None, false), ups(true, Some(30), None, false)]], false));
+    v.push(mk("upsert(w=40);upsert(w=40);upsert(w=35) unawaited || get", vec![put(1, 30)], vec![vec![ups(false, Some(40), None, false), ups(false, Some(40), None, false), ups(false, Some(35), None, false)], vec![get(1)]], false));
     v.push(mk("upsert(v) || get;get", vec![put(1, 30)], vec![vec![ups(true, None, None, false), get(1)], vec![get(1), get(1)]], false));
     v
 }
